@@ -72,6 +72,87 @@ check(
     engine="tlc+simactor",
 )
 
+check(
+    "C09",
+    "Same specification and harness as C01/C07, extended by race control (the REAL BenchmarkActor/BenchmarkCoordinator with a scratch FileRaceStore; stub mechanic) and one "
+    "fault per behaviour at every enabled point: request fails fatally (on-error=abort / fatal connection error / runner raises), parameter source raises, the driver's metrics "
+    "store fails during periodic or join-point post-processing, race control's bulk_add fails, a worker dies, the user cancels. TLC checks FaultNeverSuccess, NoResultsOnFailure, "
+    "CancelNoResults over all interleavings and FaultReported (failure reaches race control) as liveness under weak fairness; TLC behaviours and the counterexamples of the "
+    "pinned/known-deviation variants are replayed into the real actors; every recorded execution is validated by TLC (L1 clauses on race.json / summary / first answer, L2 steps).",
+    "Bounds: 2 workers, <= 3 clients, <= 2 elements, one fault. Track preparation is a stub (its failure path is not modelled). 'Bounded time' = bounded number of hops under fair "
+    "scheduling, each hop at most one wake-up interval. Known finding F16 (race control's own store failure overtaken by completion) is re-observed and listed.",
+    "TLA+ actor-protocol spec with fault actions + TLC safety and liveness checking; replay of TLC behaviours/counterexamples into the real actors; TLC trace validation",
+    engine="tlc+simactor",
+)
+check(
+    "C08",
+    "Function-like TLA+ transcription (Stats.tla) of the results path: store selection by task/sample type/operation type, percentile_value (rank p/100*(n-1), linear interpolation, exact "
+    "rationals), stats, error rate, percentiles_for_sample_size, GlobalStatsCalculator, GlobalStats defaults and the as_dict -> JSON -> from_dict round trip. TLC enumerates bags of <= 5 values "
+    "with success flags x warm-up / other-task / other-metric / foreign-operation records, arithmetic-progression stores around the size thresholds and 768 result documents; every TLC state is "
+    "loaded into a REAL InMemoryMetricsStore, evaluated by calculate_results, stored with FileRaceStore and read back via find_by_race_id and list(); all recordings plus seeded random stores are "
+    "validated by TLC (OnlyNormal, PctMonotone, PctBounds, P100Max, P50Median, MeanMinMax, PctSetByCount, ErrorRate, RoundTrip; L2 = transcription).",
+    "An implementation float is identified with the rational (denominator <= 2*10^4) it agrees with to 1e-9; inputs are integers times a unit scale. Exact interpolation values and thresholds "
+    "are L2. EsMetricsStore/EsRaceStore out of scope.",
+    "TLA+ transcription + TLC exhaustive enumeration; every state replayed on the implementation incl. file round trip; TLC validation of recorded results",
+    spec="Stats",
+)
+check(
+    "C12",
+    "TLC model (Mechanic.tla) of the MechanicActor / Dispatcher / NodeMechanicActor protocol (FIFO channels, handlers as written, race control and remote daemons as environment): safety "
+    "invariants (StartedOnlyWhenAll, StopAtMostOnce, StoppedOnlyWhenAll incl. flush/store/cleanup-unless-preserve, ExternalUntouched/Answered, NoStall, FaultReported) over all interleavings "
+    "and every single fault for target lists of <= 3 entries, liveness under weak fairness; TLC behaviours and counterexamples of the pinned variant are replayed into the REAL actors and "
+    "Mechanic under SimActorSystem with recording supplier/provisioner/launcher stubs; every execution incl. seeded random schedules is validated by TLC (L1 formulas, L2 actions).",
+    "Trusted: Thespian semantics as in simactor.py incl. convention updates; a host's start is atomic; at most one fault; remote departure explored only while the Dispatcher is subscribed.",
+    "TLA+ actor-protocol spec + TLC safety and liveness checking; replay into the real actors; TLC trace validation",
+    engine="tlc+simactor",
+    spec="Mechanic",
+)
+check(
+    "C16",
+    "TLC model-checks Retry.tla (attempt loop of runner.Retry: 10 outcome classes x retries -1..3 x retry-until-success x retry-on-timeout x retry-on-error x wait period; every outcome "
+    "sequence) for at-most retries+1, spacing = wait period, retry only when allowed, stop at first success, return that attempt, non-retryable immediately, last attempt verbatim, and for "
+    "'transcribed reaction = documented reaction'; every maximal path of the model and TLC -simulate behaviours are executed on the REAL runner.Retry on a virtual-time asyncio loop around a "
+    "scripted delegate raising real elasticsearch/elastic_transport/socket exceptions, also through the runner chain registered for every retryable operation type; every recorded run is "
+    "validated by TLC against TraceRetry.tla. The registry's Retry table is compared by TLC with the operations marked retryable in docs/track.rst.",
+    "Exhaustive for retries <= 3 (4), until-success depth 4 (6); wider by simulation/random. Trusted: the virtual-time loop, classification of exception classes of elasticsearch-py 8.6.1. "
+    "A pause after the last attempt is L2 only.",
+    "TLA+ transcription + documented reaction, TLC exhaustive checking; every path replayed on the implementation under virtual time; TLC trace validation",
+    spec="Retry",
+)
+check(
+    "C17",
+    "TLC model-checks Guarded.tla (retry loop of metrics.EsClient.guarded; outcomes ok / ConnectionTimeout / ConnectionError / ApiError with 10 status codes / other TransportError / "
+    "BulkIndexError with every set of item statuses) for budget 11 calls, exponentially growing pauses, retry only transient classes (also per bulk item), no call after success, first success "
+    "returned, non-retryable and exhaustion surface as RallyError naming the cause; all paths of the real-budget model, an edge cover (#preceding retries x full alphabet) for EVERY public "
+    "EsClient operation and TLC -simulate behaviours are executed on the real EsClient over a scripted client raising real exception instances (real elasticsearch.helpers.bulk), "
+    "time.sleep/random.random recorded; all runs validated by TLC against TraceGuarded.tla.",
+    "'names the cause' = message contains a word for the fault class or the fault's type/status; 'exponentially growing' = pause i in [2^(i-1), 2^i) s.",
+    "TLA+ transcription + TLC exhaustive checking (history variable / VIEW); paths and edge cover replayed through every public store operation; TLC trace validation",
+    spec="Guarded",
+)
+check(
+    "C19",
+    "TLC model-checks FastParse.tla: the event-level machine of runner.parse over ijson's (prefix, event, value) stream, BulkIndex.simple_stats/detailed_stats, SearchAfterExtractor, "
+    "CompositeAggExtractor and the Query sub-runners' hit/page accounting, against equality with the full parse, over JSON trees with look-alike paths, bulk responses <= 3 (4) items with "
+    "consistent and inconsistent 'errors', search responses with sort arrays and _source.sort, page sequences; the model's input universe is serialised by the harness into JSON bytes in seeded "
+    "lexical variants (key order, whitespace styles, adversarial strings/escapes/UTF-8, big and float numbers, a filler crossing ijson's buffer) and run on the real code; every execution plus "
+    "seeded random ones is validated by TLC (L1 clauses, L2 transcription, Events(tree) = ijson's stream).",
+    "Tokenisation (ijson, re, json) is trusted. Failed(item) = status > 299 or _shards.failed > 0. Known findings F7a (fast path trusts 'errors') and F7b (search_after cursor regex) are "
+    "re-observed and listed.",
+    "TLA+ transcription + TLC exhaustive enumeration; model inputs executed on the implementation in lexical variants; TLC validation",
+    spec="FastParse",
+)
+check(
+    "C20",
+    "Function-like spec Compare.tla listing all 124 row kinds of ComparisonReporter with their direction; TLC enumerates every ordered value pair (absent, 0, 4e-6, 1/2, 1, 3, -2, ...) on every "
+    "row kind across structure variants; every TLC state becomes two real Race/GlobalStats objects stored with FileRaceStore and read back, the real _metrics_table is run plain and rich, "
+    "swapped and as self-comparison, report() writes markdown and csv; all rows, colours and file/console cells (plus seeded random pairs) are validated by TLC: RowPerCommonMetric, "
+    "DiffIsContenderMinusBaseline, MarkMatchesDirection, ZeroPrintsNeutral, SelfCompareNoDifference, SwapFlips, PlainIsRichWithoutColour, FileEqualsConsole.",
+    "The relative difference for a zero baseline is not defined by the statement (known finding F8 for the swap clause). tabulate rendering trusted; rounding ties accepted either way.",
+    "TLA+ transcription + TLC exhaustive enumeration; every state replayed on the implementation; TLC validation of recorded rows",
+    spec="Compare",
+)
+
 NOT_YET = "check under construction in this round (specification planned in DESIGN.md §4); not claimed yet"
 
 
@@ -106,6 +187,7 @@ def build():
         },
         "engines": [
             {"name": "tlc", "path": "harness/tlc.py", "serves_properties": sorted(CHECKS), "kind_free_text": "TLC 1.8 model checker on specs/*/*.tla: exhaustive checking, simulation, batch trace validation"},
+            {"name": "simactor", "path": "harness/simactor.py", "serves_properties": [p for p in ("C01", "C07", "C09", "C12") if p in CHECKS], "kind_free_text": "runs the real Thespian actor classes single-threaded under a scheduler the harness controls (virtual time, scripted fake Elasticsearch)"},
         ],
         "checks": checks,
         "notes": "All checks: ./check <id> [--tier quick|thorough]. known findings / fixed defects: /verif/known_findings.json. Design: /verif/DESIGN.md.",
